@@ -1,5 +1,5 @@
 import PybropsModel.J
-import PybropsModel.Model.Genotype
+import PybropsModel.Model.GenotypeSpec
 open Lean
 
 /-!
@@ -10,24 +10,9 @@ The Spec is written from the textbook definitions on the raw allele calls (count
 the model functions, so a model that mirrors a wrong implementation cannot make it pass.
 -/
 namespace Drv.C09
-open Genotype
+open Genotype GenotypeSpec
 
 /-! ## codec -/
-
-structure Outs where
-  tacount : List (List Int)
-  tafreq  : List (List Rat)
-  acount  : List Int
-  afreq   : List Rat
-  afixed  : List Bool
-  apoly   : List Bool
-  maf     : List Rat
-  meh     : Rat
-  gtcount : List (List Int)
-  gtfreq  : List (List Rat)
-  f012    : List (List Int)
-  fM101   : List (List Int)
-  fM1m1   : List (List Rat)
 
 def encOuts (o : Outs) : Json := J.obj [
   ("tacount", J.ofMat J.ofInt o.tacount), ("tafreq", J.ofMat J.ofRat o.tafreq),
@@ -47,41 +32,48 @@ def decOuts (j : Json) : J.R Outs := do
     f012 := ← J.field j "f012" (J.mat J.int), fM101 := ← J.field j "fM101" (J.mat J.int),
     fM1m1 := ← J.field j "fM1m1" (J.mat J.rat) }
 
-/-! ## the model, run at Rat -/
-
-def natMat (m : List (List Nat)) : List (List Int) := m.map (·.map Int.ofNat)
-
-def modelU (ploidy nv : Nat) (m : UMat) : Outs := {
-  tacount := tacount m, tafreq := tafreq (α := Rat) ploidy m,
-  acount := acount nv m, afreq := afreq (α := Rat) ploidy nv m,
-  afixed := afixed (α := Rat) ploidy nv m, apoly := apoly (α := Rat) ploidy nv m,
-  maf := maf (α := Rat) ploidy nv m, meh := meh (α := Rat) ploidy nv m,
-  gtcount := natMat (gtcount ploidy nv m), gtfreq := gtfreq (α := Rat) ploidy nv m,
-  f012 := fmt012 m, fM101 := fmtM101 m, fM1m1 := fmtM1m1 (α := Rat) nv m }
-
-def modelP (nt nv : Nat) (G : PMat) : Outs := {
-  tacount := ptacount nt nv G, tafreq := ptafreq (α := Rat) nt nv G,
-  acount := pacount nv G, afreq := pafreq (α := Rat) nt nv G,
-  afixed := pafixed (α := Rat) nt nv G, apoly := papoly nv G,
-  maf := pmaf (α := Rat) nt nv G, meh := pmeh (α := Rat) nt nv G,
-  gtcount := natMat (pgtcount nt nv G), gtfreq := pgtfreq (α := Rat) nt nv G,
-  f012 := pfmt012 nt nv G, fM101 := pfmtM101 nt nv G, fM1m1 := pfmtM1m1 (α := Rat) nt nv G }
-
 /-- the float64 outputs with the IEEE rounding model (bit-exact expectation) -/
 def f64U (ploidy nv : Nat) (m : UMat) : Json :=
   let af := (List.range nv).map (afreqF64At ploidy m)
-  J.obj [("afreq", J.ofList J.ofRat af),
+  let ai := (List.range nv).map (afreqIntAt ploidy m)
+  J.obj <| [("afreq", J.ofList J.ofRat af),
          ("tafreq", J.ofMat J.ofRat (m.map (fun r => r.map (tafreqF64At ploidy)))),
          ("gtfreq", J.ofMat J.ofRat ((List.range (ploidy + 1)).map (fun i => (List.range nv).map (gtfreqF64At m i)))),
-         ("maf", J.ofList J.ofRat (af.map mafF64Of))]
+         ("maf", J.ofList J.ofRat (af.map mafF64Of)),
+         ("afreq_int", J.ofList J.ofInt ai),
+         ("tafreq_int", J.ofMat J.ofInt (m.map (fun r => r.map (tafreqIntAt ploidy)))),
+         ("gtfreq_int", J.ofMat J.ofInt ((List.range (ploidy + 1)).map (fun i => (List.range nv).map (gtfreqIntAt m i)))),
+         ("maf_int", J.ofList J.ofInt (ai.map mafIntOf))]
+    ++ narrow "f32" 23 ++ narrow "f16" 10
+where
+  narrow (tag : String) (t : Nat) : List (String × Json) :=
+    let an := (List.range nv).map (afreqNarrowAt t ploidy m)
+    [("afreq_" ++ tag, J.ofList J.ofRat an),
+     ("tafreq_" ++ tag, J.ofMat J.ofRat (m.map (fun r => r.map (tafreqNarrowAt t ploidy)))),
+     ("gtfreq_" ++ tag, J.ofMat J.ofRat ((List.range (ploidy + 1)).map (fun i => (List.range nv).map (gtfreqNarrowAt t m i)))),
+     ("maf_" ++ tag, J.ofList J.ofRat (an.map (mafNarrowOf t)))]
 
 def f64P (nt nv : Nat) (G : PMat) : Json :=
   let af := (List.range nv).map (pafreqF64At nt G)
+  let ai := (List.range nv).map (pafreqIntAt nt G)
   let um := psum nt nv G
-  J.obj [("afreq", J.ofList J.ofRat af),
+  J.obj <| [("afreq", J.ofList J.ofRat af),
          ("tafreq", J.ofMat J.ofRat (um.map (fun r => r.map (tafreqF64At G.length)))),
          ("gtfreq", J.ofMat J.ofRat ((List.range (G.length + 1)).map (fun i => (List.range nv).map (gtfreqF64At um i)))),
-         ("maf", J.ofList J.ofRat (af.map mafF64Of))]
+         ("maf", J.ofList J.ofRat (af.map mafF64Of)),
+         ("afreq_int", J.ofList J.ofInt ai),
+         ("tafreq_int", J.ofMat J.ofInt (um.map (fun r => r.map (tafreqIntAt G.length)))),
+         ("gtfreq_int", J.ofMat J.ofInt ((List.range (G.length + 1)).map (fun i => (List.range nv).map (gtfreqIntAt um i)))),
+         ("maf_int", J.ofList J.ofInt (ai.map mafIntOf))]
+    ++ narrow "f32" 23 ++ narrow "f16" 10
+where
+  narrow (tag : String) (t : Nat) : List (String × Json) :=
+    let um := psum nt nv G
+    let an := (List.range nv).map (pafreqNarrowAt t nt G)
+    [("afreq_" ++ tag, J.ofList J.ofRat an),
+     ("tafreq_" ++ tag, J.ofMat J.ofRat (um.map (fun r => r.map (tafreqNarrowAt t G.length)))),
+     ("gtfreq_" ++ tag, J.ofMat J.ofRat ((List.range (G.length + 1)).map (fun i => (List.range nv).map (gtfreqNarrowAt t um i)))),
+     ("maf_" ++ tag, J.ofList J.ofRat (an.map (mafNarrowOf t)))]
 
 /-- {"op":"c09.stats","phased":b,"nt":..,"nv":..,"ploidy":..,"mat":..} -/
 def opStats : J.Op := fun j => do
@@ -100,124 +92,41 @@ def opStats : J.Op := fun j => do
     pure <| J.obj [("U", encOuts (modelU pl nv m)), ("U64", f64U pl nv m),
                    ("valid", J.ofBool (decide (ValidU pl nv m)))]
 
-/-! ## the Spec: textbook definitions on the raw calls -/
-
-/-- the raw calls in one shape: for every taxon and locus the number of copies carrying allele 1 and
-    the number of copies in total (phased: counted over the phases; unphased: dosage and ploidy) -/
-structure Raw where
-  nt : Nat
-  nv : Nat
-  ploidy : Nat
-  ones : Nat → Nat → Int     -- copies of taxon i at locus j that carry allele 1
-
-def rawOfU (ploidy nv : Nat) (m : UMat) : Raw :=
-  { nt := m.length, nv := nv, ploidy := ploidy, ones := fun i j => (m.getD i []).getD j 0 }
-
-def rawOfP (nt nv : Nat) (G : PMat) : Raw :=
-  { nt := nt, nv := nv, ploidy := G.length,
-    ones := fun i j => ((G.map (fun ph => (ph.getD i []).getD j 0)).count 1 : Nat) }
-
-def absQ (q : Rat) : Rat := if q < 0 then -q else q
-def maxQ (a b : Rat) : Rat := if a < b then b else a
-
-/-- tolerant equality of an implementation float and an exact textbook value -/
-def closeQ (tol a b : Rat) : Bool :=
-  a == b || decide (absQ (a - b) ≤ tol * maxQ 1 (maxQ (absQ a) (absQ b)))
-
-def allIdx (n : Nat) (f : Nat → Bool) : Bool := (List.range n).all f
-
-/-- comparison of a claimed matrix with a definition, entry by entry (shape included) -/
-def matIs {β} (rows cols : Nat) (claim : List (List β)) (ok : Nat → Nat → β → Bool) : Bool :=
-  claim.length == rows && allIdx rows (fun i =>
-    match claim[i]? with
-    | none => false
-    | some r => r.length == cols && allIdx cols (fun j => match r[j]? with | none => false | some x => ok i j x))
-
-def vecIs {β} (n : Nat) (claim : List β) (ok : Nat → β → Bool) : Bool :=
-  claim.length == n && allIdx n (fun j => match claim[j]? with | none => false | some x => ok j x)
-
-structure Tol where
-  tafreq : Rat
-  afreq : Rat
-  maf : Rat
-  meh : Rat
-  gtfreq : Rat
-  fM1m1 : Rat
+/-! ## the Spec (Model/GenotypeSpec.lean): codecs -/
 
 def decTol (j : Json) : J.R Tol := do
   pure { tafreq := ← J.field j "tafreq" J.rat, afreq := ← J.field j "afreq" J.rat, maf := ← J.field j "maf" J.rat,
          meh := ← J.field j "meh" J.rat, gtfreq := ← J.field j "gtfreq" J.rat, fM1m1 := ← J.field j "fM1m1" J.rat }
 
-/-- frequency that must hit 0 and 1 exactly: equal when either side is 0 or 1, tolerant inside (0,1) -/
-def freqIs (tol a want : Rat) : Bool :=
-  if want == 0 || want == 1 || a == 0 || a == 1 then a == want else closeQ tol a want
+/-- the statistics requested in an integer dtype: a list of names -/
+def decCasts (j : Json) : J.R Casts := do
+  let names ← J.list J.str j
+  pure { tafreq := names.contains "tafreq", afreq := names.contains "afreq", maf := names.contains "maf",
+         meh := names.contains "meh", gtfreq := names.contains "gtfreq" }
 
-/-- every clause of the property on one object's outputs; returns the names of the failing clauses -/
-def specOne (R : Raw) (t : Tol) (o : Outs) : List String :=
-  let total : Int := (R.ploidy * R.nt : Nat)
-  let cnt (j : Nat) : Int := ((List.range R.nt).map (fun i => R.ones i j)).sum
-  let p (j : Nat) : Rat := (cnt j : Rat) / (total : Rat)
-  let allOne (j : Nat) : Bool := allIdx R.nt (fun i => R.ones i j == (R.ploidy : Int))
-  let allZero (j : Nat) : Bool := allIdx R.nt (fun i => R.ones i j == 0)
-  let cls (c j : Nat) : Int := (((List.range R.nt).filter (fun i => R.ones i j == (c : Int))).length : Nat)
-  let meanM1 (j : Nat) : Rat := (((List.range R.nt).map (fun i => R.ones i j - 1)).sum : Int) / (R.nt : Rat)
-  let mehWant : Rat := (((List.range R.nv).map (fun j => (R.ploidy : Rat) * p j * (1 - p j))).sum) / (R.nv : Rat)
-  let checks : List (String × Bool) := [
-    ("tacount=definition", matIs R.nt R.nv o.tacount (fun i j x => x == R.ones i j)),
-    ("tafreq=definition", matIs R.nt R.nv o.tafreq (fun i j x => freqIs t.tafreq x ((R.ones i j : Rat) / (R.ploidy : Rat)))),
-    ("acount=definition", vecIs R.nv o.acount (fun j x => x == cnt j)),
-    ("afreq=definition", vecIs R.nv o.afreq (fun j x => closeQ t.afreq x (p j))),
-    ("afreq in [0,1]", o.afreq.all (fun x => decide (0 ≤ x) && decide (x ≤ 1))),
-    ("afreq=1 iff every copy carries 1", vecIs R.nv o.afreq (fun j x => (x == 1) == allOne j)),
-    ("afreq=0 iff no copy carries 1", vecIs R.nv o.afreq (fun j x => (x == 0) == allZero j)),
-    ("afixed=definition", vecIs R.nv o.afixed (fun j x => x == (allOne j || allZero j))),
-    ("apoly=definition", vecIs R.nv o.apoly (fun j x => x == !(allOne j || allZero j))),
-    ("afixed = not apoly", o.afixed.length == o.apoly.length &&
-        (List.zip o.afixed o.apoly).all (fun ab => ab.1 == !ab.2)),
-    ("maf=definition", vecIs R.nv o.maf (fun j x =>
-        let q := p j; let want := if q ≤ 1 - q then q else 1 - q
-        (if want == 0 then x == 0 else closeQ t.maf x want) && decide (0 ≤ x) && decide (x ≤ 1/2 + t.maf))),
-    ("meh=definition", closeQ t.meh o.meh mehWant && decide (0 ≤ o.meh)),
-    ("gtcount=definition (ploidy+1 classes)", matIs (R.ploidy + 1) R.nv o.gtcount (fun c j x => x == cls c j)),
-    ("gtcount sums to ntaxa", allIdx R.nv (fun j => (o.gtcount.map (fun r => r.getD j 0)).sum == (R.nt : Int))),
-    ("gtfreq=definition", matIs (R.ploidy + 1) R.nv o.gtfreq (fun c j x =>
-        closeQ t.gtfreq x ((cls c j : Rat) / (R.nt : Rat)) && decide (0 ≤ x) && decide (x ≤ 1))),
-    ("{0,1,2}=dosage", matIs R.nt R.nv o.f012 (fun i j x => x == R.ones i j)),
-    ("{-1,0,1}=dosage-1", matIs R.nt R.nv o.fM101 (fun i j x => x == R.ones i j - 1)),
-    ("{-1,m,1}=definition", matIs R.nt R.nv o.fM1m1 (fun i j x =>
-        if R.ones i j - 1 == 0 then closeQ t.fM1m1 x (meanM1 j) else x == ((R.ones i j - 1 : Int) : Rat)))]
-  (checks.filter (fun c => !c.2)).map Prod.fst
-
-/-- phased and projected objects must answer identically (meh: two different summation routines, so
-    to rounding) -/
-def specSame (t : Tol) (a b : Outs) : List String :=
-  let checks : List (String × Bool) := [
-    ("tacount", a.tacount == b.tacount), ("tafreq", a.tafreq == b.tafreq), ("acount", a.acount == b.acount),
-    ("afreq", a.afreq == b.afreq), ("afixed", a.afixed == b.afixed), ("apoly", a.apoly == b.apoly),
-    ("maf", a.maf == b.maf), ("meh", closeQ t.meh a.meh b.meh), ("gtcount", a.gtcount == b.gtcount),
-    ("gtfreq", a.gtfreq == b.gtfreq), ("f012", a.f012 == b.f012), ("fM101", a.fM101 == b.fM101),
-    ("fM1m1", a.fM1m1 == b.fM1m1)]
-  (checks.filter (fun c => !c.2)).map (fun c => "phased≠projection:" ++ c.1)
-
-/-- {"op":"c09.spec","phased":b,"nt","nv","ploidy","mat","tol":{..},"P":{..}|null,"U":{..},"same":b} -/
+/-- {"op":"c09.spec","phased":b,"nt","nv","ploidy","mat","tol":{..},"intcast":[names],"P":{..}|null,"U":{..}|null} -/
 def opSpec : J.Op := fun j => do
   let phased ← J.field j "phased" J.bool
   let nt ← J.field j "nt" J.nat
   let nv ← J.field j "nv" J.nat
   let t ← J.field j "tol" decTol
-  let u ← J.field j "U" decOuts
+  let c ← J.fieldD j "intcast" decCasts {}
   let fails ←
     if phased then do
       let G ← J.field j "mat" (J.list (J.mat J.int))
       let p ← J.field j "P" decOuts
-      let same ← J.fieldD j "same" J.bool true
       let R := rawOfP nt nv G
-      pure ((specOne R t p).map ("phased:" ++ ·) ++ (specOne R t u).map ("projection:" ++ ·)
-            ++ (if same then specSame t p u else []))
+      -- the unphased projection is judged against the same raw calls and must answer identically (absent: a phased
+      -- object queried on its own, as in the single-object histories)
+      match ← J.fieldOpt j "U" decOuts with
+      | some u =>
+        pure ((specOne R t c p).map ("phased:" ++ ·) ++ (specOne R t c u).map ("projection:" ++ ·) ++ specSame t p u)
+      | none => pure ((specOne R t c p).map ("phased:" ++ ·))
     else do
+      let u ← J.field j "U" decOuts
       let m ← J.field j "mat" (J.mat J.int)
       let pl ← J.field j "ploidy" J.nat
-      pure ((specOne (rawOfU pl nv m) t u).map ("unphased:" ++ ·))
+      pure ((specOne (rawOfU pl nv m) t c u).map ("unphased:" ++ ·))
   pure <| J.obj [("ok", J.ofBool fails.isEmpty), ("detail", J.ofStr (", ".intercalate fails))]
 
 def ops : List (String × J.Op) := [("c09.stats", opStats), ("c09.spec", opSpec)]
